@@ -161,6 +161,12 @@ class SpecEval:
                 return z3.Implies(B(a), B(b))
             if n in ("forall", "exists"):
                 return self.quant(n, node)
+            if n == "local":
+                # local('name', default): final value of a local of the function if it is bound on this path
+                nm = node.args[0].value
+                if nm in self.env:
+                    return self.env[nm]
+                return self.ev(node.args[1])
         fn = self.ev(node.func)
         args = []
         for a in node.args:
